@@ -11,7 +11,7 @@ struct Res { int family; Bytes addr; int ttl; unsigned port; };
 
 struct Req {
   int id = 0; std::string kind = "query", name, script = "none"; int qtype = 1; int family = AF_INET; int ai_flags = 0; unsigned port = 0;
-  bool started = false; int calls = 0; int status = -1; int timeouts = 0; int64_t t_start = 0, t_end = 0; uint64_t tick_start = 0, tick_end = 0; bool sync_done = false; bool in_start = false;
+  bool started = false; int calls = 0; int status = -1; int timeouts = 0; int64_t t_start = 0, t_end = 0; uint64_t tick_start = 0, tick_end = 0, ev_end = 0; bool sync_done = false; bool in_start = false;
   bool accepted = true;            // entry point took the request (callback owed)
   int calls_after_destroy = 0; int parent = -1;
   size_t tx_at_start = 0, tx_at_end = 0; size_t prov_at_end = 0;
@@ -91,7 +91,7 @@ struct Sim {
     r.calls++;
     if (destroyed) { r.calls_after_destroy++; violate("C01.callback-after-destroy", "request " + std::to_string(r.id) + " (" + r.kind + ") called back after ares_destroy returned"); return; }
     if (r.calls > 1) { violate("C01.callback-twice", "request " + std::to_string(r.id) + " (" + r.kind + " " + r.name + ") completed " + std::to_string(r.calls) + " times; statuses " + std::to_string(r.status) + " then " + std::to_string(status)); return; }
-    r.status = status; r.timeouts = timeouts; r.t_end = w.now_us; r.tick_end = ++tick; r.tx_at_end = w.txs.size(); r.prov_at_end = w.provs.size(); r.sync_done = r.in_start;
+    r.status = status; r.timeouts = timeouts; r.t_end = w.now_us; r.tick_end = ++tick; r.ev_end = ++w.evseq; r.tx_at_end = w.txs.size(); r.prov_at_end = w.provs.size(); r.sync_done = r.in_start;
     if (in_cancel && !r.pending_at_cancel && !r.started_during_cancel) {}
     run_script(r);
   }
